@@ -497,3 +497,59 @@ def pointee_local(inst, exprs):
         if e[0] == "partial":
             return e[1]
     return None
+
+
+def eval_on_discriminant(inst, d, param=1, max_steps=400):
+    """constant propagation of a call-free function of one fieldless-enum argument for a fixed discriminant value:
+    returns the constant left in the return place, or None when it is not determined (no code is run: this walks the CFG
+    with a constant environment)."""
+    env = {}
+    bb = 0
+    steps = 0
+
+    def opv(o):
+        if o["k"] == "const":
+            return o["c"].get("val")
+        if o["k"] in ("copy", "move") and not o["p"]["p"]:
+            return env.get(o["p"]["l"])
+        return None
+    while steps < max_steps:
+        steps += 1
+        bl = inst.body["blocks"][bb]
+        for s in bl["s"]:
+            if s["k"] != "assign" or s["l"]["p"]:
+                continue
+            r = s["r"]; v = None
+            if r["k"] == "discr" and r["p"]["l"] == param and not [p for p in r["p"]["p"] if p["k"] != "deref"]:
+                v = d
+            elif r["k"] == "use":
+                v = opv(r["o"])
+            elif r["k"] == "unop" and r["op"] == "Not":
+                a = opv(r["a"])
+                v = None if a is None else (0 if a else 1)
+            elif r["k"] == "binop":
+                a, b = opv(r["a"]), opv(r["b"])
+                if a is not None and b is not None:
+                    op = r["op"]
+                    v = {"Eq": int(a == b), "Ne": int(a != b), "Lt": int(a < b), "Le": int(a <= b), "Gt": int(a > b), "Ge": int(a >= b),
+                         "BitAnd": a & b, "BitOr": a | b, "BitXor": a ^ b}.get(op)
+            elif r["k"] == "cast":
+                v = opv(r["o"])
+            env[s["l"]["l"]] = v
+        t = bl["t"]
+        if t["k"] == "goto":
+            bb = t["ret"]
+        elif t["k"] == "switch":
+            v = opv(t["d"])
+            if v is None:
+                return None
+            nxt = t["else"]
+            for val, tg in t["vals"]:
+                if val == v:
+                    nxt = tg
+            bb = nxt
+        elif t["k"] == "return":
+            return env.get(0)
+        else:
+            return None
+    return None
